@@ -2,6 +2,7 @@ package c06
 
 import (
 	"image"
+	"math"
 
 	"github.com/reactivego/ivg"
 	"github.com/reactivego/ivg/render"
@@ -156,4 +157,82 @@ func H_Segments() {
 		ok = vp.And(ok, ras.Log[i].Op == rec.ROpCubeTo)
 	}
 	vp.Assert(ok, "a non-degenerate arc is emitted as cubic segments only")
+}
+
+var _ = vp.Reg("General", H_General)
+
+// H_General (exact-real reading; sin, cos, acos uninterpreted): a
+// non-degenerate arc under a non-uniform, off-origin viewBox map is emitted as
+// 1..4 cubics whose control and end points are the ones the SVG centre
+// parameterisation (ref.NewArc, written from the SVG implementation notes)
+// prescribes for an equal subdivision of the sweep, mapped to pixels; and the
+// last end point is the mapped arc end point.
+//
+// Assumed (a theorem of the SVG notes about ref.NewArc's own angles, not
+// derivable with uninterpreted trigonometry): the end angle Theta1+Delta
+// parameterises the end point, i.e. (Rx cos, Ry sin)(Theta1+Delta) = (Ex, Ey),
+// the end point relative to the centre in the rotated frame.
+func H_General() {
+	var z render.Renderer
+	var ras rec.Raster
+	// viewBox (-32,-16)-(32,48) onto 48 x 20: pixel = (0.75*(x+32), 0.3125*(y+16))
+	s := render.VPState{ViewBox: ivg.ViewBox{MinX: -32, MinY: -16, MaxX: 32, MaxY: 48}, R: image.Rect(0, 0, 48, 20), LOD1: 1}
+	z.SetRasterizer(&ras, s.R)
+	z.VPSet(&s)
+	mapX := func(x float64) float64 { return 0.75 * (x + 32) }
+	mapY := func(y float64) float64 { return 0.3125 * (y + 16) }
+	x1, y1, x2, y2 := vp.F32("x1"), vp.F32("y1"), vp.F32("x2"), vp.F32("y2")
+	rx, ry, rot := vp.F32("rx"), vp.F32("ry"), vp.F32("rot")
+	vp.Assume(vp.All(x1 >= -64, x1 <= 64, y1 >= -64, y1 <= 64, x2 >= -64, x2 <= 64, y2 >= -64, y2 <= 64))
+	vp.Assume(vp.All(rx >= 0.25, rx <= 64, ry >= 0.25, ry <= 64, rot >= 0, rot <= 1))
+	vp.Assume(vp.Or(x1 != x2, y1 != y2))
+	// the x-axis rotation is concrete (0 or an eighth of a turn): with a symbolic rotation the
+	// non-linear real queries did not terminate within the caps
+	if vp.Choice("rot", 2) == 1 {
+		rot = 0.125
+	} else {
+		rot = 0
+	}
+	large, sweep := vp.Choice("large", 2) == 1, vp.Choice("sweep", 2) == 1
+	vp.ExactBegin()
+	ras.MoveTo(float32(mapX(float64(x1))), float32(mapY(float64(y1))))
+	vp.ExactEnd()
+	ras.Log = nil
+	z.AbsArcTo(rx, ry, rot, large, sweep, x2, y2)
+	vp.Reach("drawn")
+	vp.ExactBegin()
+	a := ref.NewArc(float64(x1), float64(y1), float64(x2), float64(y2), float64(rx), float64(ry), float64(rot), large, sweep)
+	vp.Assert(a.N <= 4, "an arc has at most four segments")
+	vp.Assert(len(ras.Log) == a.N, "one rasteriser call per segment of the equal subdivision")
+	if len(ras.Log) != a.N || a.N < 1 || a.N > 4 { // (no segment at all needs acos = 0: excluded by real trigonometry only)
+		vp.ExactEnd()
+		return
+	}
+	ok := true
+	for i := 0; i < a.N; i++ {
+		c := ras.Log[i]
+		ok = vp.And(ok, c.Op == rec.ROpCubeTo)
+		p := a.Segment(a.Theta1+a.Delta*float64(i+0)/float64(a.N), a.Theta1+a.Delta*float64(i+1)/float64(a.N))
+		for j := 0; j < 6; j += 2 {
+			ok = vp.All(ok, nearPix(c.A[j], mapX(p[j])), nearPix(c.A[j+1], mapY(p[j+1])))
+		}
+	}
+	vp.Assert(ok, "every segment is the cubic the centre parameterisation prescribes, mapped to pixels")
+	// the theorem about the reference's own angles (see above): the ellipse point at the
+	// end angle is the end point; and cos^2 + sin^2 = 1 for the rotation
+	te := a.Theta1 + a.Delta
+	vp.AssumeEq(a.Rx*math.Cos(te), a.Ex, 1e-6)
+	vp.AssumeEq(a.Ry*math.Sin(te), a.Ey, 1e-6)
+	vp.AssumeEq(a.CosPhi*a.CosPhi+a.SinPhi*a.SinPhi, 1, 1e-9)
+	vp.Reach("lemma")
+	last := ras.Log[a.N-1]
+	vp.Assert(vp.And(nearPix(last.A[4], mapX(float64(x2))), nearPix(last.A[5], mapY(float64(y2)))), "the arc ends at the mapped end point")
+	vp.ExactEnd()
+}
+
+// nearPix: within 1e-3 pixel (absolute) plus 1e-4 relative.
+func nearPix(got float32, want float64) bool {
+	d := float64(got) - want
+	m := vp.IteF64(want < 0, -want, want)
+	return vp.And(d <= 1e-3+1e-4*m, -d <= 1e-3+1e-4*m)
 }
